@@ -244,3 +244,68 @@ pub(crate) fn any_canon<const N: usize>() -> [u64; N] {
     }
     a
 }
+
+// ---------------------------------------------------------------------------------------------
+// bit-level oracles
+// ---------------------------------------------------------------------------------------------
+/// bit i of the (zero-extended) digit slice
+pub(crate) fn ref_bit(x: &[u64], i: u64) -> bool {
+    let d = (i / 64) as usize;
+    if d >= x.len() {
+        return false;
+    }
+    (x[d] >> (i % 64)) & 1 == 1
+}
+/// window left shift by 64*digits + bits (bits < 64); returns (window, lost_nonzero)
+pub(crate) fn ref_shl<const W: usize>(x: &[u64], digits: usize, bits: u32) -> ([u64; W], bool) {
+    let mut out = [0u64; W];
+    let mut lost = false;
+    let mut i = 0;
+    while i < x.len() {
+        let lo = if bits == 0 { x[i] } else { x[i] << bits };
+        let hi = if bits == 0 { 0 } else { x[i] >> (64 - bits) };
+        if i + digits < W {
+            out[i + digits] |= lo;
+        } else if lo != 0 {
+            lost = true;
+        }
+        if i + digits + 1 < W {
+            out[i + digits + 1] |= hi;
+        } else if hi != 0 {
+            lost = true;
+        }
+        i += 1;
+    }
+    (out, lost)
+}
+/// window logical right shift by 64*digits + bits (bits < 64); returns (window, some one bit was shifted out)
+pub(crate) fn ref_shr<const W: usize>(x: &[u64], digits: usize, bits: u32) -> ([u64; W], bool) {
+    let mut out = [0u64; W];
+    let mut sticky = false;
+    let mut i = 0;
+    while i < x.len() {
+        if i < digits {
+            if x[i] != 0 {
+                sticky = true;
+            }
+        } else {
+            let j = i - digits;
+            let lo = if bits == 0 { x[i] } else { x[i] >> bits };
+            if j < W {
+                out[j] |= lo;
+            }
+            if bits != 0 {
+                let spill = x[i] << (64 - bits);
+                if j >= 1 {
+                    if j - 1 < W {
+                        out[j - 1] |= spill;
+                    }
+                } else if spill != 0 {
+                    sticky = true;
+                }
+            }
+        }
+        i += 1;
+    }
+    (out, sticky)
+}
